@@ -5,6 +5,8 @@ type RAT[K comparable, V any] struct {
 	length int
 	values map[K][]V
 	idx    map[K]int
+	// count is the number of slots written so far for a key (at most length)
+	count map[K]int
 }
 
 func NewRAT[K comparable, V any](length int) *RAT[K, V] {
@@ -12,6 +14,7 @@ func NewRAT[K comparable, V any](length int) *RAT[K, V] {
 		length: length,
 		values: make(map[K][]V),
 		idx:    make(map[K]int),
+		count:  make(map[K]int),
 	}
 }
 
@@ -61,6 +64,9 @@ func (r *RAT[K, V]) Write(k K, value V) {
 
 	r.idx[k] = idx
 	r.values[k][idx] = value
+	if r.count[k] < r.length {
+		r.count[k]++
+	}
 }
 
 func (r *RAT[K, V]) Values() map[K]V {
@@ -74,18 +80,9 @@ func (r *RAT[K, V]) Values() map[K]V {
 func (r *RAT[K, V]) FindValues(predicate func(V) bool) map[K]V {
 	m := make(map[K]V)
 	for k, v := range r.idx {
-		found := false
-		for i := v; i >= 0; i-- {
-			if predicate(r.values[k][i]) {
-				m[k] = r.values[k][i]
-				found = true
-				break
-			}
-		}
-		if found {
-			continue
-		}
-		for i := r.length - 1; i > v; i-- {
+		// From the newest slot backwards, over the slots that were written
+		for j := 0; j < r.count[k]; j++ {
+			i := (v - j + r.length) % r.length
 			if predicate(r.values[k][i]) {
 				m[k] = r.values[k][i]
 				break
